@@ -3,9 +3,9 @@ import MsqProofs.Lemmas.TRest2
 # T-parse for SHOW COLUMNS, CREATE TABLE … AS, the new classes together, and the union of all fragments (C03 / C01)
 
 * `showColumns_ok` — `SHOW COLUMNS FROM t, … [WHERE e]` (tables and filter of the larger query fragment `TQ2`);
-* `sel_ok`, `createAs_ok` — `CREATE TABLE t AS <query>`: a query of `FragQ2`, or `[WITH …]` in front of a query of `FragQ`;
+* `with_query_select2`, `sel_ok`, `createAs_ok` — `CREATE TABLE t AS [WITH …] <query of FragQ2>`;
 * `rest_ok` — every statement of `FragRest` through `pStatement`;
-* `any_ok` — every statement of `FragAny` (queries `FragQ2` ∪ data-change statements `TDM.FragStmt` ∪ CREATE TABLE `TD.FragCreate` ∪
+* `any_ok` — every statement of `FragAny` (queries `FragQ2` ∪ data-change statements `TDM2.FragStmt` ⊇ `TDM.FragStmt` ∪ CREATE TABLE `TD.FragCreate` ∪
   `FragRest`) through `pStatement`, at the common fuel bound `20 * size + 16`.
 -/
 set_option linter.unusedVariables false
@@ -47,35 +47,44 @@ theorem showColumns_ok (fr : List FromTable) (wh : Option Expr) (hfr : TQ2.fromO
     simp only [h1, h2, List.singleton_append, h3]
 
 /-! ### CREATE TABLE … AS -/
+/-- `_parse_select_statement` itself finds the WITH clause (what CREATE TABLE … AS calls): the analogue of `C03.twith_query_select` over `FragQ2` -/
+theorem with_query_select2 (q : Query) (hs : TDM2.FragStmt d (.select q) = true) (rest : List Tok) (hr : TDM2.stopsStmt d rest = true)
+    (fuel : Nat) (hfuel : 20 * sizeL (TDM2.toksStmt d (.select q)) + 16 ≤ fuel) :
+    pSelectStmt d fuel none (TDM2.toksStmt d (.select q) ++ rest) = .ok (q, rest) := by
+  simp only [TDM2.FragStmt, Bool.and_eq_true] at hs
+  obtain ⟨h0, hq⟩ := hs
+  cases hw : TDM2.withsOf q with
+  | none => rw [hw] at h0; simp [TDM2.withsOK] at h0
+  | some ws =>
+    rw [hw] at h0
+    obtain ⟨x, hx⟩ := TQ2.toksQ2_head TQ2.chOK_noX (TDM2.stripW q) hq
+    rw [TDM2.toksQ_stripW] at hx
+    simp only [TDM2.toksStmt, TDM2.toksStmtG, hw, sizeL_append] at hfuel ⊢
+    obtain ⟨g, rfl⟩ : ∃ g, fuel = g + 1 := ⟨fuel - 1, by omega⟩
+    have k := TDM2.kw_body "SELECT" (by simp)
+    have hp := TDM2.with_ok TQ2.chOK_noX ws h0 (TQ2.toksQ2 d noX q ++ rest) (by simpa [hx, searchStr] using k.2.1)
+      (by simpa [hx, searchStrUp] using k.2.2.1) g (by omega)
+    simp only at hp
+    have hb := TDM2.query_ws TQ2.chOK_noX ws (TDM2.stripW q) hq rest hr (g + 1) (by rw [TDM2.toksQ_stripW]; omega)
+    simp only [TDM2.toksQ_stripW, TDM2.setQW_stripW q ws hw] at hb
+    unfold pSelectStmt at hb ⊢
+    simp only [List.append_assoc, hp]
+    simpa using hb
 /-- a query where `_parse_select_statement` itself looks for the WITH clause -/
 theorem sel_ok (q : Query) (hq : selOK d q = true) (rest : List Tok) (hr : stopsAny d rest = true) (f : Nat)
     (hf : 20 * sizeL (toksSel d q) + 16 ≤ f) : pSelectStmt d f none (toksSel d q ++ rest) = .ok (q, rest) := by
-  by_cases h2 : TQ2.FragQ2 d q = true
-  · simp only [toksSel, h2, if_true] at hf ⊢
+  by_cases h1 : TDM2.FragStmt d (.select q) = true
+  · simp only [toksSel, h1, if_true] at hf ⊢
+    exact with_query_select2 q h1 rest (sa_q2 hr) f hf
+  · have h2 : TQ2.FragQ2 d q = true := by simpa [selOK, h1] using hq
+    simp only [toksSel, h1, Bool.false_eq_true, if_false] at hf ⊢
     exact C03.tquery2 d q h2 rest (sa_q2 hr) f (by omega)
-  · have h1 : TDM.FragStmt d (.select q) = true := by simpa [selOK, h2] using hq
-    simp only [toksSel, h2, Bool.false_eq_true, if_false] at hf ⊢
-    have := C03.twith_query_select d q h1 rest (sa_stmt hr) f hf
-    simpa [TDM.toksStmt, TDM.toksStmtG] using this
-theorem toksSel_head (q : Query) (hq : selOK d q = true) : ∃ k x, toksSel d q = opTok k :: x ∧ (k = "SELECT" ∨ k = "WITH") := by
-  by_cases h2 : TQ2.FragQ2 d q = true
-  · obtain ⟨x, hx⟩ := TQ2.toksQ2_head TQ2.chOK_noX q h2
-    exact ⟨"SELECT", x, by simp only [toksSel, h2, if_true, hx], Or.inl rfl⟩
-  · have h1 : TDM.FragStmt d (.select q) = true := by simpa [selOK, h2] using hq
-    simp only [TDM.FragStmt, Bool.and_eq_true] at h1
-    obtain ⟨x, hx⟩ := TQ.toksQ_head TQ.chOK_noX (TDM.stripW q) h1.2
-    rw [TDM.toksQ_stripW] at hx
-    simp only [toksSel, h2, Bool.false_eq_true, if_false, TDM.toksStmt, TDM.toksStmtG]
-    rcases hw : TDM.withsOf q with _ | ⟨_ | ⟨w, ws⟩⟩
-    · exact ⟨"SELECT", x, by simp only [TDM.toksWiths, List.nil_append, hx], Or.inl rfl⟩
-    · exact ⟨"SELECT", x, by simp only [TDM.toksWiths, List.nil_append, hx], Or.inl rfl⟩
-    · exact ⟨"WITH", _, by simp only [TDM.toksWiths, List.cons_append]; rfl, Or.inr rfl⟩
 
-theorem createAs_ok (t : TableName) (q : Query) (ht : TDM.tblOKD t = true) (hq : selOK d q = true)
+theorem createAs_ok (t : TableName) (q : Query) (ht : TDM2.tblOKD t = true) (hq : selOK d q = true)
     (rest : List Tok) (hr : stopsAny d rest = true) (f : Nat) (hf : 20 * sizeL (toksCreateAs d t q) + 16 ≤ f) :
     pStatement d f (toksCreateAs d t q ++ rest) = .ok (.createTableAs t q, rest) := by
   simp only [toksCreateAs, sizeL_cons, size_opTok] at hf
-  have h1 : pTblName (tbl t :: opTok "AS" :: (toksSel d q ++ rest)) = .ok (t, _) := TDM.tblName_ok t ht _ (by kw_simp)
+  have h1 : pTblName (tbl t :: opTok "AS" :: (toksSel d q ++ rest)) = .ok (t, _) := TDM2.tblName_ok t ht _ (by kw_simp)
   have h2 := sel_ok q hq rest hr f (by omega)
   unfold pStatement toksCreateAs
   kw_simp
@@ -103,7 +112,7 @@ theorem rest_ok (s : Stmt) (hs : FragRest d s = true) (rest : List Tok) (hr : st
     by_cases hd : (d == Gen.D.HIVE) = true
     · have h2 := hs.2
       simp only [hd, if_true] at h2 ⊢
-      exact TDM.partRec TQ.chOK_noX p h2
+      exact TDM2.partRec TQ2.chOK_noX p h2
     · have h2 := hs.2
       simp only [hd, Bool.false_eq_true, if_false, Bool.and_eq_true, Bool.not_eq_true', Option.isNone_iff_eq_none] at h2 ⊢
       exact ⟨h2.1.1.1, h2.1.1.2, h2.1.2, h2.2⟩
@@ -126,38 +135,64 @@ theorem rest_ok (s : Stmt) (hs : FragRest d s = true) (rest : List Tok) (hr : st
 /-! ### the union -/
 theorem any_ok (s : Stmt) (hs : FragAny d s = true) (rest : List Tok) (hr : stopsAny d rest = true) (f : Nat)
     (hf : 20 * sizeL (toksAny d s) + 16 ≤ f) : pStatement d f (toksAny d s ++ rest) = .ok (s, restAfter s rest) := by
-  have hD : ∀ s', TDM.FragStmt d s' = true → 20 * sizeL (TDM.toksStmt d s') + 16 ≤ f →
-      pStatement d f (TDM.toksStmt d s' ++ rest) = .ok (s', rest) :=
-    fun s' h1 h2 => C03.tstatement d s' h1 rest (sa_stmt hr) f h2
+  have hD : ∀ s', TDM2.FragStmt d s' = true → 20 * sizeL (TDM2.toksStmt d s') + 16 ≤ f →
+      pStatement d f (TDM2.toksStmt d s' ++ rest) = .ok (s', rest) :=
+    fun s' h1 h2 => TDM2.stmt_ok TQ2.chOK_noX (d == .HIVE) s' h1 rest (sa_q2 hr) f h2
   have hR : ∀ s', FragRest d s' = true → 20 * sizeL (toksRest d s') + 16 ≤ f → pStatement d f (toksRest d s' ++ rest) = .ok (s', rest) :=
     fun s' h1 h2 => rest_ok s' h1 rest hr f h2
   cases s with
   | select q =>
     simp only [toksAny] at hf ⊢
-    have hq : selOK d q = true := by simpa [FragAny, FragRest, selOK] using hs
-    by_cases h2 : TQ2.FragQ2 d q = true
-    · simp only [toksSel, h2, if_true] at hf ⊢
+    by_cases h1 : TDM2.FragStmt d (.select q) = true
+    · simp only [toksSel, h1, if_true] at hf ⊢
+      exact hD _ h1 hf
+    · have h2 : TQ2.FragQ2 d q = true := by simpa [FragAny, FragRest, h1] using hs
+      simp only [toksSel, h1, Bool.false_eq_true, if_false] at hf ⊢
       exact C03.tquery2_statement d q h2 rest (sa_q2 hr) f (by omega)
-    · simp only [toksSel, h2, Bool.false_eq_true, if_false] at hf ⊢
-      have : TDM.FragStmt d (.select q) = true := by simpa [selOK, h2] using hq
-      exact hD _ this hf
   | createTable c =>
-    have hc : TD.FragCreate d c = true := by simpa [FragAny, TDM.FragStmt, FragRest] using hs
+    have hc : TD.FragCreate d c = true := by simpa [FragAny, TDM2.FragStmt, FragRest] using hs
     exact C03.tcreate d c hc rest (sa_ends hr) f (by simp only [toksAny] at hf; omega)
   | insertValues h vs => exact hD _ (by simpa [FragAny, FragRest] using hs) hf
   | insertSelect h q => exact hD _ (by simpa [FragAny, FragRest] using hs) hf
   | update ws t sets wh ob lm => exact hD _ (by simpa [FragAny, FragRest] using hs) hf
   | delete t wh ob lm => exact hD _ (by simpa [FragAny, FragRest] using hs) hf
-  | dropTable b t => exact hR (.dropTable b t) (by simpa [FragAny, TDM.FragStmt] using hs) hf
-  | truncate t => exact hR (.truncate t) (by simpa [FragAny, TDM.FragStmt] using hs) hf
-  | msck t => exact hR (.msck t) (by simpa [FragAny, TDM.FragStmt] using hs) hf
-  | use s => exact hR (.use s) (by simpa [FragAny, TDM.FragStmt] using hs) hf
-  | set c => exact hR (.set c) (by simpa [FragAny, TDM.FragStmt] using hs) hf
-  | analyze t p fc cm ns => exact hR (.analyze t p fc cm ns) (by simpa [FragAny, TDM.FragStmt] using hs) hf
-  | alter t ops => exact hR (.alter t ops) (by simpa [FragAny, TDM.FragStmt] using hs) hf
-  | showDatabases => exact hR (.showDatabases) (by simpa [FragAny, TDM.FragStmt] using hs) hf
-  | showTables => exact hR (.showTables) (by simpa [FragAny, TDM.FragStmt] using hs) hf
-  | showColumns fr wh => exact hR (.showColumns fr wh) (by simpa [FragAny, TDM.FragStmt] using hs) hf
-  | createTableAs t q => exact hR (.createTableAs t q) (by simpa [FragAny, TDM.FragStmt] using hs) hf
+  | dropTable b t => exact hR (.dropTable b t) (by simpa [FragAny, TDM2.FragStmt] using hs) hf
+  | truncate t => exact hR (.truncate t) (by simpa [FragAny, TDM2.FragStmt] using hs) hf
+  | msck t => exact hR (.msck t) (by simpa [FragAny, TDM2.FragStmt] using hs) hf
+  | use s => exact hR (.use s) (by simpa [FragAny, TDM2.FragStmt] using hs) hf
+  | set c => exact hR (.set c) (by simpa [FragAny, TDM2.FragStmt] using hs) hf
+  | analyze t p fc cm ns => exact hR (.analyze t p fc cm ns) (by simpa [FragAny, TDM2.FragStmt] using hs) hf
+  | alter t ops => exact hR (.alter t ops) (by simpa [FragAny, TDM2.FragStmt] using hs) hf
+  | showDatabases => exact hR (.showDatabases) (by simpa [FragAny, TDM2.FragStmt] using hs) hf
+  | showTables => exact hR (.showTables) (by simpa [FragAny, TDM2.FragStmt] using hs) hf
+  | showColumns fr wh => exact hR (.showColumns fr wh) (by simpa [FragAny, TDM2.FragStmt] using hs) hf
+  | createTableAs t q => exact hR (.createTableAs t q) (by simpa [FragAny, TDM2.FragStmt] using hs) hf
+
+/-- **the union contains the data-change fragment over `FragQ`** (Props/C03D.lean), with the same rendering -/
+theorem any_of_fragStmt (s : Stmt) (hs : TDM.FragStmt d s = true) : FragAny d s = true ∧ toksAny d s = TDM.toksStmt d s := by
+  obtain ⟨h1, h2⟩ := TDM2.fragStmt_sub d noX (d == .HIVE) s hs
+  refine ⟨by simp only [FragAny, h1, Bool.or_true, Bool.true_or], ?_⟩
+  have h2 : TDM2.toksStmt d s = TDM.toksStmt d s := h2
+  cases s <;> first | exact h2 | (simp only [toksAny, toksSel, h1, if_true]; exact h2) | simp [TDM.FragStmt] at hs
+theorem withsOf_fragQ2 (q : Query) (hq : TQ2.FragQ2 d q = true) : TDM2.withsOf q = some [] := by
+  cases q with
+  | single s =>
+    simp only [TQ2.FragQ2] at hq
+    obtain ⟨dist, c, cs, fr, lats, js, wh, gb, hv, ob, sb, db, cb, lm, rfl, _⟩ := TQ2.srec_of (ch := noX) TQ2.chOK_noX s hq
+    rfl
+  | union ws s us =>
+    cases ws with
+    | none => simp [TQ2.FragQ2] at hq
+    | some l =>
+      cases l with
+      | cons _ _ => simp [TQ2.FragQ2] at hq
+      | nil => rfl
+/-- … and the queries of `FragQ2` with their own rendering -/
+theorem any_of_fragQ2 (q : Query) (hq : TQ2.FragQ2 d q = true) : FragAny d (.select q) = true ∧ toksAny d (.select q) = TQ2.toksQ2 d noX q := by
+  refine ⟨by simp only [FragAny, hq, Bool.true_or], ?_⟩
+  simp only [toksAny, toksSel]
+  split
+  · simp only [TDM2.toksStmt, TDM2.toksStmtG, withsOf_fragQ2 q hq, TDM2.toksWiths, List.nil_append]
+  · rfl
 
 end TR
